@@ -253,6 +253,7 @@ def expr_tie(ctx, res, jinja2, boost):
     trees = [g.any(rng.randrange(1, ctx.pick(4, 5) + 1)) for _ in range(ntrees)]
     srcs = X.pretty_batch(trees)
     reqs, jobs = [], []
+    n_ce = 0
     for tree, src in zip(trees, srcs):
         data = X.make_data(jinja2, rng)
         vars_, objs = X.ctx_sx(jinja2, data)
@@ -261,6 +262,18 @@ def expr_tie(ctx, res, jinja2, boost):
         ra, la = va.render(src, data)
         if (rs, ls) != (ra, la):
             res.violate(f"C09:expr:e2e:{tree[0]}", f"{{{{ {src} }}}} [{vs.label()}] renders {rs!r} hooks {ls}; with async on {ra!r} hooks {la}",
+                        {"src": src, "variant": va.label(), "data": {k: repr(x) for k, x in data.items()}})
+        # Environment.compile_expression: the value of the expression itself (TemplateExpression runs its own loop in async mode)
+        ce = []
+        for v in (vs, va):
+            v.log = []          # (the hook log of the render above must not grow)
+            try:
+                ce.append(("ok", L.canon_value(v.env.compile_expression(src, undefined_to_none=False)(**data))))
+            except Exception as e:  # noqa
+                ce.append(("err", type(e).__name__))
+        n_ce += 2
+        if ce[0] != ce[1]:
+            res.violate(f"C09:expr:compile_expression:{tree[0]}", f"compile_expression({src!r}) [{vs.label()}] gives {ce[0]!r}; with async on {ce[1]!r}",
                         {"src": src, "variant": va.label(), "data": {k: repr(x) for k, x in data.items()}})
         reqs.append(va.request(tree, vars_, objs))
         jobs.append((tree, src, va, ra, la))
@@ -279,7 +292,7 @@ def expr_tie(ctx, res, jinja2, boost):
             res.violate(f"C09:expr:model:{'async' if v.is_async else 'sync'}:{tree[0]}",
                         f"{{{{ {src} }}}} [{v.label()}] renders {got!r} hooks {X.canon(log)}; the Lean pipeline gives {comp!r} hooks {clog}",
                         {"src": src, "variant": v.label()})
-    return {"expressions": ntrees, "renders": 2 * ntrees, "model_compared": len(jobs) - oom, "out_of_model": oom,
+    return {"expressions": ntrees, "renders": 2 * ntrees + n_ce, "compile_expression_calls": n_ce, "model_compared": len(jobs) - oom, "out_of_model": oom,
             "folded_by_model": folded, "configurations": len(pairs)}
 
 
@@ -470,16 +483,56 @@ PAIR_TEMPLATES = {
 }
 
 
+# the ORIGINAL variables again, after the filter (list-shaped data only: generators are one-shot)
+AGAIN = ("|{{ v|list }}{{ v|length }}{{ v[0] }}|{{ s|join(',') }}|{{ d|map(attribute='k')|join }},{{ d|map(attribute='v')|join }}"
+         "|{% for q in d %}{{ q.k }}{{ q.v }};{% endfor %}|{{ ll|list }}{% for q in ll %}{{ q|join }}.{% endfor %}")
+MUTATE = ("{% if ys.sort is defined %}{% do ys.sort() %}{% endif %}{% if ys.pop is defined and ys %}{% do ys.pop() %}{% endif %}"
+          "{% if ys.append is defined %}{% do ys.append(1) %}{% endif %}")
+# iterable consumers without an async variant: the same value must look the same afterwards in both modes
+CONSUMER_TEMPLATES = {
+    "sort": ["{{ v|sort }}", "{{ d|sort(attribute='k')|map(attribute='v')|list }}", "{{ s|sort(reverse=true) }}"], "reverse": ["{{ v|reverse|list }}"],
+    "batch": ["{{ v|batch(2)|list }}"], "min": ["{{ v|min }}", "{{ d|min(attribute='v') }}"], "max": ["{{ s|max }}"], "last": ["{{ v|last }}"],
+    "length": ["{{ d|length }}"], "dictsort": ["{{ {'b': 1, 'a': 2}|dictsort }}"], "tojson": ["{{ d|tojson }}"], "random": ["{{ (v|random) is defined }}"],
+    "items": ["{{ d|first|default({})|items|list }}"], "urlencode": ["{{ ll|map('string')|map('list')|list|length }}"],
+}
+
+
+def deep_snapshot(v):
+    if isinstance(v, list):
+        return ["list", id(v)] + [deep_snapshot(x) for x in v]
+    if isinstance(v, dict):
+        return ["dict", id(v)] + [[k, deep_snapshot(x)] for k, x in v.items()]
+    return v
+
+
+def strip_ids(sn):
+    if isinstance(sn, list):
+        if sn and sn[0] in ("list", "dict") and len(sn) > 1 and isinstance(sn[1], int):
+            return [sn[0]] + [strip_ids(x) for x in sn[2:]]
+        return [strip_ids(x) for x in sn]
+    return sn
+
+
 def pair_sweep(ctx, res, jinja2, runner, boost):
     rng = ctx.rng("pairs")
-    senv, aenv = jinja2.Environment(), jinja2.Environment(enable_async=True)
+    ext = ["jinja2.ext.do"]
+    senv, aenv = jinja2.Environment(extensions=ext), jinja2.Environment(enable_async=True, extensions=ext)
     names = sorted(k for k, f in aenv.filters.items() if getattr(f, "jinja_async_variant", False))
     tests = sorted(k for k, f in aenv.tests.items() if getattr(f, "jinja_async_variant", False))
     n = 0
-    for name in names + ["test:" + t for t in tests]:
-        srcs = PAIR_TEMPLATES.get(name) or (["{{ v|%s }}" % name, "{{ s|%s }}" % name, "{{ d|%s }}" % name] if not name.startswith("test:")
-                                             else ["{{ v is %s }}" % name[5:]])
+    work = [(name, PAIR_TEMPLATES.get(name) or (["{{ v|%s }}" % name, "{{ s|%s }}" % name, "{{ d|%s }}" % name] if not name.startswith("test:")
+                                                else ["{{ v is %s }}" % name[5:]])) for name in names + ["test:" + t for t in tests]]
+    work += [(name, srcs) for name, srcs in sorted(CONSUMER_TEMPLATES.items()) if name in aenv.filters]
+    for name, srcs0 in work:
+        srcs = []
+        for src in srcs0:
+            srcs.append(src)
+            # the value again after the filter; and the filter's result mutated through a method call, then the value again
+            srcs.append(src + AGAIN)
+            if src.startswith("{{ ") and src.endswith(" }}") and "}}" not in src[3:-3]:
+                srcs.append("{% set ys = " + src[3:-3] + " %}" + MUTATE + AGAIN)
         for src in srcs:
+            reuse = AGAIN in src
             try:
                 st, at = senv.from_string(src), aenv.from_string(src)
             except Exception as e:  # noqa
@@ -490,21 +543,102 @@ def pair_sweep(ctx, res, jinja2, runner, boost):
                        "d": [{"k": rng.choice(["a", "b", "A"]), "v": rng.randrange(0, 4)} for _ in range(rng.randrange(0, 5))],
                        "ll": [[rng.randrange(3)] for _ in range(rng.randrange(0, 4))]}
                 outs = []
-                for label, tmpl, form in (("sync:list", st, "list"), ("sync:gen", st, "gen"), ("async:list", at, "list"), ("async:gen", at, "gen"),
-                                          ("async:agen", at, "agen")):
+                forms = (("sync:list", st, "list"), ("async:list", at, "list")) if reuse else \
+                    (("sync:list", st, "list"), ("sync:gen", st, "gen"), ("async:list", at, "list"), ("async:gen", at, "gen"), ("async:agen", at, "agen"))
+                if name in CONSUMER_TEMPLATES:      # no async variant: an async generator is DESIGN F17, probed separately
+                    forms = tuple(f for f in forms if f[2] != "agen")
+                for label, tmpl, form in forms:
                     from markupsafe import Markup
-                    data = {k: (L._agen(list(x)) if form == "agen" else (y for y in list(x)) if form == "gen" else list(x)) for k, x in raw.items()}
+                    import copy
+                    fresh = copy.deepcopy(raw)
+                    data = {k: (L._agen(list(x)) if form == "agen" else (y for y in list(x)) if form == "gen" else x) for k, x in fresh.items()}
                     data.update(st=[], m=[Markup("<u>"), "<b>"], mk=Markup("&"))
                     how = "render" if label.startswith("sync") else "render_async"
                     r = L.entry(runner, tmpl, how, data)
-                    outs.append((label, r, list(data["st"])))
+                    # what the arguments look like afterwards (a filter must leave them alone in both modes)
+                    modified = sorted(k for k in raw if fresh[k] != raw[k]) if form == "list" else []
+                    outs.append((label, r, list(data["st"]), modified, {k: fresh[k] for k in modified}))
                     n += 1
-                for label, r, st_after in outs[1:]:
-                    ref = outs[0] if label.endswith("list") else outs[1]
+                for label, r, st_after, modified, now in outs[1:]:
+                    ref = outs[0] if label.endswith("list") or reuse else outs[1]
+                    if modified != ref[3] or (now != ref[4]):
+                        res.violate(f"C09:pair:{name}:argument-modified",
+                                    f"{src!r} on {raw}: after {label} the argument(s) {modified} are {now}; after {ref[0]} {ref[3] or 'nothing'} changed",
+                                    {"src": src, "data": raw, "label": label, "after": now})
                     if (r, st_after) != (ref[1], ref[2]):
-                        res.violate(f"C09:pair:{name}:{label}", f"{src!r} on {raw}: {ref[0]} gives {ref[1]!r} (start argument afterwards {ref[2]}) but "
+                        res.violate(f"C09:pair:{name}:{label}" + (":value-again" if reuse else ""),
+                                    f"{src!r} on {raw}: {ref[0]} gives {ref[1]!r} (start argument afterwards {ref[2]}) but "
                                     f"{label} gives {r!r} (start argument afterwards {st_after})", {"src": src, "data": raw, "label": label})
-    return {"evaluations": n, "pairs": names, "test_pairs": tests}
+    direct = pair_calls(ctx, res, jinja2, runner, names, boost)
+    return {"evaluations": n + direct["calls"], "pairs": names, "test_pairs": tests, "consumers_with_value_again": sorted(CONSUMER_TEMPLATES),
+            "direct_calls": direct}
+
+
+CALL_ARGS = {"unique": ("v", ()), "join": ("s", (",",)), "first": ("v", ()), "slice": ("v", (2,)), "groupby": ("d", ("k",)), "sum": ("v", ()),
+             "list": ("v", ()), "map": ("v", ("string",)), "select": ("v", ("odd",)), "reject": ("v", ("odd",)), "selectattr": ("d", ("v",)),
+             "rejectattr": ("d", ("v",))}
+
+
+def pair_calls(ctx, res, jinja2, runner, names, boost):
+    """L-unit: every async variant called directly (Environment.call_filter) next to its sync variant on an equal argument:
+    a deep snapshot of the argument (values and object identities) right after the call and again after the result has been
+    consumed must be what the sync variant leaves — unchanged; and the result must not *be* the argument where the sync
+    variant returns a fresh object"""
+    import copy
+    from jinja2.async_utils import auto_await, auto_to_list
+
+    rng = ctx.rng("pair-calls")
+    senv, aenv = jinja2.Environment(), jinja2.Environment(enable_async=True)
+    sctx, actx = senv.from_string("").new_context({}), aenv.from_string("").new_context({})
+    calls = 0
+    for name in names:
+        which, args = CALL_ARGS.get(name, ("v", ()))
+        for _ in range(ctx.pick(25, 250) * boost):
+            raw = {"v": [rng.randrange(0, 6) for _ in range(rng.randrange(0, 6))],
+                   "s": [rng.choice(G.STRS) for _ in range(rng.randrange(0, 5))],
+                   "d": [{"k": rng.choice(["b", "a", "A", "c"]), "v": rng.randrange(0, 4)} for _ in range(rng.randrange(0, 6))]}[which]
+            obs = {}
+            for mode, env, cx in (("sync", senv, sctx), ("async", aenv, actx)):
+                arg = copy.deepcopy(raw)
+                before = deep_snapshot(arg)
+                try:
+                    if mode == "sync":
+                        result = env.call_filter(name, arg, list(args), context=cx)
+                        after_call = deep_snapshot(arg)
+                        same = result is arg
+                        consumed = list(result) if hasattr(result, "__iter__") and not isinstance(result, (str, bytes)) else result
+                    else:
+                        async def go():
+                            result = await auto_await(env.call_filter(name, arg, list(args), context=cx))
+                            after_call = deep_snapshot(arg)
+                            same = result is arg
+                            if hasattr(result, "__aiter__") or (hasattr(result, "__iter__") and not isinstance(result, (str, bytes))):
+                                consumed = await auto_to_list(result)
+                            else:
+                                consumed = result
+                            return after_call, same, consumed
+                        after_call, same, consumed = runner.run(go())
+                    obs[mode] = (after_call == before, deep_snapshot(arg) == before, same, strip_ids(deep_snapshot(arg)), repr(consumed))
+                except Exception as e:  # noqa
+                    obs[mode] = ("raised", type(e).__name__)
+                calls += 1
+            s_, a_ = obs["sync"], obs["async"]
+            if s_[0] == "raised" or a_[0] == "raised":
+                if s_ != a_:
+                    res.violate(f"C09:pair:{name}:call", f"{name}{args} on {raw}: sync variant {s_}, async variant {a_}", {"filter": name, "arg": raw})
+                continue
+            if (s_[0], s_[1]) != (a_[0], a_[1]):
+                res.violate(f"C09:pair:{name}:argument-modified",
+                            f"filter {name}{args} called directly on {raw}: the sync variant leaves its argument "
+                            f"{'unchanged' if s_[1] else s_[3]}, the async variant leaves {'it unchanged' if a_[1] else a_[3]} "
+                            f"(unchanged right after the call: sync {s_[0]}, async {a_[0]})", {"filter": name, "args": list(args), "arg": raw, "after_async": a_[3]})
+            if a_[2] and not s_[2]:
+                res.violate(f"C09:pair:{name}:result-is-argument",
+                            f"filter {name}{args} called directly on {raw}: the async variant returns its argument object itself, the sync variant a fresh "
+                            "object — mutating the result in a template modifies the caller's data in async mode only", {"filter": name, "args": list(args), "arg": raw})
+            if s_[4] != a_[4]:
+                res.violate(f"C09:pair:{name}:call", f"{name}{args} on {raw}: sync variant gives {s_[4]}, async variant {a_[4]}", {"filter": name, "arg": raw})
+    return {"calls": calls}
 
 
 # ------------------------------------------------------------------------------------------------------------------
